@@ -1,6 +1,6 @@
 SPECIFICATION TVSpec
 CONSTANTS
-  Targets = {1, 2, 3, 4, 5}
+  Targets = {1, 2, 3, 4, 5, 6}
   EType <- TVEType
   Cap <- TVCap
 CONSTRAINT Mark
